@@ -24,6 +24,7 @@ package symgo
 //     arguments (SuDate.String): exact output, symbolic digits (via the strconv machinery).
 
 import (
+	"os"
 	"fmt"
 	"go/token"
 	"go/types"
@@ -80,6 +81,132 @@ func c33linAdd(l *c33lin, t *Term, m *big.Int, depth int) {
 	} else {
 		l.coef[t] = new(big.Int).Set(m)
 	}
+}
+
+var c33Two64 = new(big.Int).Lsh(bi(1), 64)
+
+// c33linMod is c33linAdd modulo 2^64: two's-complement wrap terms produced by wrapKind
+// (ite(c, X, X +- k*2^64) and X mod 2^64) are replaced by X, so the result is only congruent
+// to t modulo 2^64. c33unwrap turns that back into an equality when both lie in one window.
+func c33linMod(l *c33lin, t *Term, m *big.Int, depth int) {
+	if depth < 200 && !t.IsConst() {
+		switch t.Op {
+		case "+":
+			c33linMod(l, t.Args[0], m, depth+1)
+			c33linMod(l, t.Args[1], m, depth+1)
+			return
+		case "-":
+			c33linMod(l, t.Args[0], m, depth+1)
+			c33linMod(l, t.Args[1], new(big.Int).Neg(m), depth+1)
+			return
+		case "*":
+			if t.Args[0].IsConst() {
+				c33linMod(l, t.Args[1], new(big.Int).Mul(m, t.Args[0].Val), depth+1)
+				return
+			}
+			if t.Args[1].IsConst() {
+				c33linMod(l, t.Args[0], new(big.Int).Mul(m, t.Args[1].Val), depth+1)
+				return
+			}
+		case "mod":
+			if t.Args[1].IsConst() && t.Args[1].Val.Cmp(c33Two64) == 0 {
+				c33linMod(l, t.Args[0], m, depth+1)
+				return
+			}
+		case "ite":
+			if isIntSort(t.Sort) {
+				la := c33lin{map[*Term]*big.Int{}, new(big.Int)}
+				lb := c33lin{map[*Term]*big.Int{}, new(big.Int)}
+				c33linMod(&la, t.Args[1], bi(1), depth+1)
+				c33linMod(&lb, t.Args[2], bi(1), depth+1)
+				if c33sameCoefs(la, lb) && new(big.Int).Mod(new(big.Int).Sub(la.k, lb.k), c33Two64).Sign() == 0 {
+					for a, c := range la.coef {
+						c33addCoef(l, a, new(big.Int).Mul(m, c))
+					}
+					l.k.Add(l.k, new(big.Int).Mul(m, la.k))
+					return
+				}
+			}
+		}
+	}
+	if t.IsConst() {
+		l.k.Add(l.k, new(big.Int).Mul(m, t.Val))
+		return
+	}
+	c33addCoef(l, t, m)
+}
+
+func c33addCoef(l *c33lin, t *Term, m *big.Int) {
+	if c, ok := l.coef[t]; ok {
+		c.Add(c, m)
+	} else {
+		l.coef[t] = new(big.Int).Set(m)
+	}
+}
+
+func c33sameCoefs(a, b c33lin) bool {
+	for t, c := range a.coef {
+		if c.Sign() == 0 {
+			continue
+		}
+		if d, ok := b.coef[t]; !ok || d.Cmp(c) != 0 {
+			return false
+		}
+	}
+	for t, c := range b.coef {
+		if c.Sign() == 0 {
+			continue
+		}
+		if d, ok := a.coef[t]; !ok || d.Cmp(c) != 0 {
+			return false
+		}
+	}
+	return true
+}
+
+// c33unwrap: if t (known to lie in [0,2^64) or in [-2^63,2^63)) is congruent modulo 2^64 to a
+// wrap-free linear form L that lies in the same window, then t = L.
+func c33unwrap(t *Term) *Term {
+	if t.IsConst() {
+		return t
+	}
+	it := iv(t)
+	if it.lo == nil {
+		return t
+	}
+	l := c33lin{map[*Term]*big.Int{}, new(big.Int)}
+	c33linMod(&l, t, bi(1), 0)
+	// reduce the constant into the window so that L itself has a chance to be inside
+	L := l.term()
+	iL := iv(L)
+	if iL.lo == nil {
+		return t
+	}
+	half := new(big.Int).Lsh(bi(1), 63)
+	// shift L by a multiple of 2^64 into the window of t
+	var wlo, whi *big.Int
+	switch {
+	case it.lo.Sign() >= 0 && it.hi.Cmp(c33Two64) < 0:
+		wlo, whi = bi(0), new(big.Int).Sub(c33Two64, bi(1))
+	case it.lo.Cmp(new(big.Int).Neg(half)) >= 0 && it.hi.Cmp(half) < 0:
+		wlo, whi = new(big.Int).Neg(half), new(big.Int).Sub(half, bi(1))
+	default:
+		return t
+	}
+	shift := c33floor(new(big.Int).Sub(iL.lo, wlo), 1)
+	shift, _ = new(big.Int).DivMod(shift, c33Two64, new(big.Int))
+	if shift.Sign() != 0 {
+		l.k.Sub(l.k, new(big.Int).Mul(shift, c33Two64))
+		L = l.term()
+		iL = iv(L)
+		if iL.lo == nil {
+			return t
+		}
+	}
+	if iL.lo.Cmp(wlo) >= 0 && iL.hi.Cmp(whi) <= 0 {
+		return L
+	}
+	return t
 }
 
 func (l c33lin) atoms() []*Term {
@@ -152,6 +279,31 @@ func c33div(a *Term, c int64) *Term {
 	if c == 1 {
 		return a
 	}
+	a = c33unwrap(a)
+	q := c33div1(a, c)
+	// the quotient lies in [floor(lo/c), floor(hi/c)] of the dividend's interval
+	if ia := iv(a); ia.lo != nil && !q.IsConst() {
+		c33tighten(q, c33floor(ia.lo, c), c33floor(ia.hi, c))
+	}
+	return q
+}
+
+// c33tighten intersects the recorded interval of t with [lo,hi] (a fact about t's value).
+func c33tighten(t *Term, lo, hi *big.Int) {
+	if i := iv(t); i.lo != nil {
+		if i.lo.Cmp(lo) > 0 {
+			lo = i.lo
+		}
+		if i.hi.Cmp(hi) < 0 {
+			hi = i.hi
+		}
+	}
+	if lo.Cmp(hi) <= 0 {
+		ivals[t] = ival{lo, hi}
+	}
+}
+
+func c33div1(a *Term, c int64) *Term {
 	cb := bi(c)
 	// pull out the part of the dividend that is a multiple of c:
 	// floor((c*X + R) / c) = X + floor(R / c)   (X integer)
@@ -175,17 +327,44 @@ func c33div(a *Term, c int64) *Term {
 	if len(rest.coef) == 0 {
 		return out.term() // kr in [0,c): floor(kr/c) = 0
 	}
-	// pull out only when what remains folds to a constant by its interval; otherwise the
-	// plain quotient keeps dividend and quotient visibly related for the solver
-	r := rest.term()
-	if ir := iv(r); ir.lo != nil && c33floor(ir.lo, c).Cmp(c33floor(ir.hi, c)) == 0 {
-		return IntBin("+", out.term(), ConstInt(c33floor(ir.lo, c)))
+	// pull out only when the quotient of what remains needs no div (constant, small case
+	// table); otherwise the plain quotient keeps dividend and quotient visibly related
+	if qr := c33divRaw(rest.term(), c); qr.Op != "div" {
+		return IntBin("+", out.term(), qr)
 	}
 	return c33divRaw(c33norm(a), c)
 }
 
 func c33divRaw(a *Term, c int64) *Term {
 	ia := iv(a)
+	// a = coef*x + k with x ranging over at most 13 values: tabulate floor(a/c) over x
+	if l := c33linOf(a); len(l.coef) == 1 {
+		for x, co := range l.coef {
+			ix := iv(x)
+			if ix.lo == nil || new(big.Int).Sub(ix.hi, ix.lo).Cmp(bi(12)) > 0 || co.Sign() == 0 {
+				break
+			}
+			val := func(xv *big.Int) *big.Int {
+				return c33floor(new(big.Int).Add(new(big.Int).Mul(co, xv), l.k), c)
+			}
+			r := ConstInt(val(ix.hi))
+			lo, hi := val(ix.hi), val(ix.hi)
+			for xv := new(big.Int).Sub(ix.hi, bi(1)); xv.Cmp(ix.lo) >= 0; xv = new(big.Int).Sub(xv, bi(1)) {
+				v := val(xv)
+				if v.Cmp(lo) < 0 {
+					lo = v
+				}
+				if v.Cmp(hi) > 0 {
+					hi = v
+				}
+				r = Ite(IntCmp("<=", x, ConstInt(xv)), ConstInt(v), r)
+			}
+			if !r.IsConst() {
+				setIv(r, lo, hi)
+			}
+			return r
+		}
+	}
 	if ia.lo != nil {
 		qlo, qhi := c33floor(ia.lo, c), c33floor(ia.hi, c)
 		span := new(big.Int).Sub(qhi, qlo)
@@ -210,6 +389,7 @@ func c33divRaw(a *Term, c int64) *Term {
 
 // c33mod returns a mod c (c > 0), as a - c*floor(a/c).
 func c33mod(a *Term, c int64) *Term {
+	a = c33unwrap(a)
 	q := c33div(a, c)
 	r := c33norm(IntBin("-", a, IntBin("*", c33c(c), q)))
 	if !r.IsConst() {
@@ -322,7 +502,7 @@ func c33MonthOfYday(ayday *Term) *Term {
 // c33CivilOf: (year, month, day) of an absolute day number, exactly as Time.Year/Month/Day compute
 // them. The triple is remembered: time.dateToAbsDays applied to exactly these three terms is the
 // day number itself (days-of-civil is the left inverse of civil-of-days; checked for every day of
-// years -1..3100 against the real time package in c33SelfTest, and only used inside that range).
+// years -200..3500 against the real time package in c33SelfTest, and only used inside that range).
 var c33Civil = map[[3]*Term]*Term{}
 
 func c33CivilOf(days *Term) (y, m, d *Term) {
@@ -341,7 +521,7 @@ func c33CivilOf(days *Term) (y, m, d *Term) {
 	return
 }
 
-// absolute day numbers of -0001-01-01 and 3101-01-01 (the verified range of the inverse law)
+// absolute day numbers of -0200-01-01 and 3500-12-31 (the verified range of the inverse law)
 var c33CivilLo, c33CivilHi *big.Int
 
 // ---------------------------------------------------------------- self test
@@ -375,15 +555,15 @@ func c33SelfTest() {
 			panic("x_c33: dateToAbsDays month trick differs from the classical form")
 		}
 	}
-	// (a2) days-of-civil(civil-of-days(n)) = n for every day of years -1..3100 (real time package)
-	for t, end := time.Date(-1, 1, 1, 0, 0, 0, 0, time.UTC), time.Date(3101, 1, 1, 0, 0, 0, 0, time.UTC); t.Before(end); t = t.AddDate(0, 0, 1) {
+	// (a2) days-of-civil(civil-of-days(n)) = n for every day of years -200..3500 (real time package)
+	for t, end := time.Date(-200, 1, 1, 0, 0, 0, 0, time.UTC), time.Date(3501, 1, 1, 0, 0, 0, 0, time.UTC); t.Before(end); t = t.AddDate(0, 0, 1) {
 		y, m, d := t.Date()
 		if !time.Date(y, m, d, 0, 0, 0, 0, time.UTC).Equal(t) {
 			panic(fmt.Sprintf("x_c33: time.Date(t.Date()) != t at %v", t))
 		}
 	}
-	c33CivilLo = c33DateToAbsDays(c33c(-1), c33c(1), c33c(1)).Val
-	c33CivilHi = c33DateToAbsDays(c33c(3101), c33c(1), c33c(1)).Val
+	c33CivilLo = c33DateToAbsDays(c33c(-200), c33c(1), c33c(1)).Val
+	c33CivilHi = c33DateToAbsDays(c33c(3500), c33c(12), c33c(31)).Val
 	// (b) the term builders, run on constants, against the real time package
 	t := time.Date(1, 1, 1, 0, 0, 0, 0, time.UTC)
 	end := time.Date(3101, 1, 1, 0, 0, 0, 0, time.UTC)
@@ -464,6 +644,20 @@ func init() {
 		}
 		if n, ok := c33Civil[[3]*Term{c33norm(year), c33norm(month), c33norm(day)}]; ok && c33bounded(n, c33CivilLo, c33CivilHi) {
 			return mkIntVal(types.Uint64, wrapKind(types.Uint64, n))
+		}
+		if f := os.Getenv("C33_DEBUG"); f != "" {
+			dbg, _ := os.OpenFile(f, os.O_APPEND|os.O_CREATE|os.O_WRONLY, 0644)
+			defer dbg.Close()
+			ky := [3]*Term{c33norm(year), c33norm(month), c33norm(day)}
+			n, ok := c33Civil[ky]
+			fmt.Fprintf(dbg, "c33 memo miss: found=%v ids=%d,%d,%d memo=%d\n", ok, ky[0].id, ky[1].id, ky[2].id, len(c33Civil))
+			if ok {
+				i := iv(n)
+				fmt.Fprintf(dbg, "   n interval %v %v  lo=%v hi=%v\n", i.lo, i.hi, c33CivilLo, c33CivilHi)
+			}
+			for k := range c33Civil {
+				fmt.Fprintf(dbg, "   key %d,%d,%d\n", k[0].id, k[1].id, k[2].id)
+			}
 		}
 		days := c33DateToAbsDays(year, month, day)
 		return mkIntVal(types.Uint64, wrapKind(types.Uint64, days))
